@@ -118,45 +118,69 @@ func (ul *Upstreams) open(manager cert.TlsConfig) (err error) {
 	return errors.Errorf("Could not connect to any upstream endpoints!")
 }
 
-// openStream will select a specific subprotocol stream within our session
-func (ul *Upstreams) openStream(subProtocol string) (streams.ReadWriteCloserClosed, error) {
-	conn, err := ul.session.OpenStream()
+// openStream will select a specific subprotocol stream within the given session. If the session cannot carry new
+// streams any more (carrier lost, server gone), it is discarded and sessionLost is returned as true.
+func (ul *Upstreams) openStream(session *smux.Session, subProtocol string) (s streams.ReadWriteCloserClosed, sessionLost bool, err error) {
+	conn, err := session.OpenStream()
 
 	if err != nil {
-		return nil, err
+		ul.discard(session)
+		return nil, true, err
 	}
 
-	stream := streams.NewNamedStream(streams.NewMuxStreamConnection(conn), ul.session.RemoteAddr().String())
+	stream := streams.NewNamedStream(streams.NewMuxStreamConnection(conn), session.RemoteAddr().String())
 	err = ms.SelectProtoOrFail(fmt.Sprintf("/%s", subProtocol), stream)
 	if err != nil {
 		if e := streams.LogClose(stream); e != nil {
 			log.WithError(e).Errorf("Failed closing the connection: %+v", e)
 		}
-		return nil, errors.Wrapf(err, "Could no select protocol %s", subProtocol)
+		return nil, false, errors.Wrapf(err, "Could no select protocol %s", subProtocol)
 	}
 
-	return streams.NewNamedStream(stream, subProtocol), err
+	return streams.NewNamedStream(stream, subProtocol), false, err
 }
 
 // Connect will return a mutex stream to the first upstream available. If an upstream connection is already opened,
 // it will be reused -- only one physical connection will be opened against the server, no matter how many logical
 // connections you start.
 func (ul *Upstreams) Connect(config cert.ConfigGetter, subProtocol string) (streams.ReadWriteCloserClosed, error) {
-	var err error
+	for attempt := 0; ; attempt++ {
+		var err error
 
+		ul.mutex.Lock()
+		if ul.connection == nil || ul.connection.Closed() || ul.session == nil || ul.session.IsClosed() {
+			ul.connection = nil
+			ul.session = nil
+			err = ul.open(config.CertManager())
+		}
+		session := ul.session
+		ul.mutex.Unlock()
+
+		if err != nil {
+			return nil, err
+		}
+
+		// A session that was lost since it was last used is replaced by a fresh one, once.
+		stream, sessionLost, err := ul.openStream(session, subProtocol)
+		if !sessionLost || attempt > 0 {
+			return stream, err
+		}
+	}
+}
+
+// discard closes the given session and its physical connection and forgets them, so that the next Connect opens
+// a new one. It does nothing if another session has been stored in the meantime.
+func (ul *Upstreams) discard(session *smux.Session) {
 	ul.mutex.Lock()
-	if ul.connection == nil || ul.connection.Closed() {
+	defer ul.mutex.Unlock()
+	if session != nil && ul.session == session {
+		streams.TryClose(ul.session)
+		if ul.connection != nil && !ul.connection.Closed() {
+			streams.TryClose(ul.connection)
+		}
 		ul.connection = nil
 		ul.session = nil
-		err = ul.open(config.CertManager())
 	}
-	ul.mutex.Unlock()
-
-	if err != nil {
-		return nil, err
-	}
-
-	return ul.openStream(subProtocol)
 }
 
 // Shutdown will close the connection to the connected upstream server
